@@ -61,7 +61,7 @@ def run_memlog(sc, chooser):
     def make(ops):
         def body():
             for o in ops:
-                ev = {"e": "inv", "op": o["op"], "id": o.get("id", 0), "tb": o.get("tb", 0), "classes": o.get("classes", [])}
+                ev = {"e": "inv", "op": o["op"], "id": o.get("id", 0), "tb": o.get("tb", 0), "classes": o.get("classes", []), "bad": bool(o.get("bad"))}
                 s.event(**ev)
                 r = []
                 try:
@@ -73,6 +73,8 @@ def run_memlog(sc, chooser):
                             logger.write(m, SER[3])
                         else:
                             m.update({"message_type": "M%d" % o["ser"], "x": 7})
+                            if o.get("bad"):
+                                del m["x"]                    # a declared field is missing: validate() will raise
                             logger.write(m, SER[o["ser"]])
                     elif o["op"] == "validate":
                         logger.validate()
@@ -92,7 +94,7 @@ def run_memlog(sc, chooser):
     for name, ops in sorted(sc["threads"].items()):
         s.spawn(name, make(ops))
     s.run(chooser)
-    msgs = [[d["id"], depth(d["x"]) if "x" in d else (0 if isinstance(d.get("reason"), BaseException) else 1)] for d in logger.messages]
+    msgs = [[d["id"], depth(d["x"]) if "x" in d else (0 if (isinstance(d.get("reason"), BaseException) or "reason" not in d) else 1)] for d in logger.messages]
     pair = len(logger.messages) == len(logger.serializers)
     if pair:
         for d, ser in zip(logger.messages, logger.serializers):
